@@ -88,7 +88,7 @@ def part(ck, n, G, D, seed, hi, corrupt=None, offset=0, lltab=None, label=""):
     if lltab is None:
         lltab = rs.randint(0, hi + 1, size=(n, D, G)) + offset
     tab = np.ones_like(lltab)
-    oracle, r = gridoracle.run_oracle("c10_%d_%d_%d%s" % (n, G, D, label), tab, lltab=lltab, outl=False, check_def=True)
+    oracle, r = gridoracle.run_oracle("c10_%d_%d_%d%s" % (n, G, D, label), tab, lltab=lltab, outl=False, check_def=(G <= 8))
     ck.add_tlc("GridOracle max-product N=%d G=%d D=%d (LL in %d..%d): forward pass = definitional optimum" % (n, G, D, offset, offset + hi), r)
     from phyclone.data.base import DataPoint
     data = [DataPoint(d, np.ascontiguousarray(lltab[d].astype(float))) for d in range(n)]
@@ -163,6 +163,29 @@ def written_tables(ck):
     shutil.rmtree(d, ignore_errors=True)
 
 
+def wide_grid_part(ck):
+    """A grid of 301 points with optima beyond index 255 (grid indices must survive whatever integer type stores them).
+    TLC's oracle does not reach this grid size; for the two 2-clone forests the definitional optimum (proved equal to the
+    recursion by GridOracle.tla on the small grids) is a plain maximum over index pairs, evaluated here directly."""
+    from phyclone.data.base import DataPoint
+    from . import c02
+    G = 301
+    ll = np.array([[[-abs(g - pk) for g in range(G)], [-2 * abs(g - pk2) for g in range(G)]] for pk, pk2 in ((290, 280), (270, 262))])   # (2 points, 2 samples, G)
+    data = [DataPoint(d, np.ascontiguousarray(ll[d].astype(float))) for d in range(2)]
+    idx = np.arange(G)
+    for fam, feasible in (([[0, 1], [1]], lambda i, j: j <= i), ([[0], [1]], lambda i, j: i + j <= G - 1)):
+        key = absstate.canon({"f": fam, "o": []})
+        best = []
+        for s_ in range(2):
+            tot = ll[0, s_][:, None] + ll[1, s_][None, :]
+            mask = feasible(idx[:, None], idx[None, :])
+            best.append(int(np.max(np.where(mask, tot, -10 ** 9))))
+        for vname, tree in c02.build_variants(key, data)[:2]:
+            ck.evaluations += 1
+            check_tree(ck, key, tree, ll, best, G, 2, vname + "_G301", {"state": absstate.to_json(key), "G": G, "variant": vname})
+        ck.nontrivial("wide:%s" % absstate.key_str(key))
+
+
 def run(corrupt=None):
     ck = Check("C10")
     env.use_repo()
@@ -182,6 +205,7 @@ def run(corrupt=None):
         return [9 - 4 * abs(j - k) for j in range(G)]
     absent = np.array([[peak(3), peak(3)], [peak(0), peak(2)], [peak(0), peak(1)], [peak(0), peak(1)]])
     part(ck, 4, 4, 2, ck.seed, 0, lltab=absent, label="_absent")
+    wide_grid_part(ck)
     written_tables(ck)
     ck.rule = ("every forest (no outliers) on <= 4-5 data points with integer log-likelihood tables drawn from 0..hi (many ties), three "
                "construction histories each; non-trivial = forests with > 1 clone")
